@@ -131,13 +131,13 @@ def pmirror (e : Enc) (layer : Nat → Nat) (bf : Nat) (p : PSt) (toks : List St
   | ["ins", slot, k, v] =>
     match nat slot >>= (p.trees[·]?), nat slot, nat k, nat v with
     | some t, some i, some k, some v =>
-      let (ps', t', o) := insert E pfuel p.ps t k v
+      let (ps', t', o) := insertGo E pfuel p.ps t k v
       fin { p with ps := ps', trees := p.trees.insert i t', last := outcomeStr o }
     | _, _, _, _ => p
   | ["del", slot, k, v] =>
     match nat slot >>= (p.trees[·]?), nat slot, nat k, nat v with
     | some t, some i, some k, some v =>
-      let (ps', t', o) := delete E pfuel p.ps t k v
+      let (ps', t', o) := deleteGo E pfuel p.ps t k v
       fin { p with ps := ps', trees := p.trees.insert i t', last := outcomeStr o }
     | _, _, _, _ => p
   | ["get", slot, k] =>
